@@ -99,6 +99,21 @@ func runLBStop(x *X) {
 		stops = append(stops, r)
 		x.mu.Unlock()
 	}
+	// an operator adds a backend (admin API) a moment before the stop; its health endpoint stalls
+	if c.Intn(3, "add-just-before-stop") == 0 {
+		nb2 := net.add("late", x.BackendHost(8, 9), "")
+		nb2.probeMode, nb2.probeSlow = "slow", 5*PT
+		x.Do("add", func() {
+			if err := h.lb.AddBackend(config.BackendConfig{Name: "late", Address: "http://" + nb2.host, Weight: 1}); err != nil {
+				panic(err)
+			}
+		}, onErr)
+		if d := time.Duration(c.Intn(300, "add-to-stop-ms")) * time.Millisecond; d > 0 {
+			x.Advance(d, onErr)
+		}
+		x.Fault("probe-slow")
+		x.Probe("backend-added-just-before-stop")
+	}
 	if traffic {
 		for j := 0; j < 2; j++ {
 			s.Spawn("traffic", func() { h.do(reqSpec{client: "192.0.2.1"}) })
